@@ -161,7 +161,10 @@ Opaque fuel16.   (* keep simpl/cbn from unfolding a 65535-deep unary numeral *)
 (* ------------------------------------------------------------------ the invariant *)
 
 Definition cids (l : list ctx) : list Z := map cid l.
-Definition live (s : st) : list Z := cids (map snd (pending s)) ++ cids (expired s).
+(* the calls that are still to be completed: in the table, on the expired list, or stripped by a
+   Dispatch / ReapTimeout whose completion has not run yet *)
+Definition live (s : st) : list Z :=
+  cids (map snd (pending s)) ++ cids (expired s) ++ cids (map fst (inflight s)).
 
 Record Inv (s : st) : Prop := mkInv {
   i_nodup : NoDup (keys (pending s));
@@ -200,42 +203,86 @@ Proof.
   constructor; [|apply IH; assumption]. intros H. apply H1. eapply keys_filter_sub; eauto.
 Qed.
 
+Lemma nth_error_split {A} (l : list A) k x : nth_error l k = Some x ->
+  l = firstn k l ++ x :: skipn (S k) l.
+Proof.
+  revert k; induction l as [|a l IH]; intros [|k] H; simpl in *; try discriminate.
+  - inversion H; reflexivity.
+  - f_equal. apply IH. exact H.
+Qed.
+
+Lemma map_kcid_complete r l : map kcid (map (fun c => complete c r) l) = map cid l.
+Proof. rewrite map_map. apply map_ext. intros c. apply complete_cid. Qed.
+
+Lemma map_cid_pair (r : resp) l : map cid (map fst (map (fun c => (c, r)) l)) = map cid l.
+Proof. rewrite !map_map. apply map_ext. intros c. reflexivity. Qed.
+
+Ltac permz :=
+  apply (proj2 (Permutation_count_occ Z.eq_dec _ _)); intros ?z;
+  repeat first [rewrite count_occ_app | rewrite map_app | progress simpl];
+  repeat match goal with |- context [Z.eq_dec ?a ?b] => destruct (Z.eq_dec a b) end; lia.
+
+Lemma count_filter_split (f : Z * ctx -> bool) l z :
+  count_occ Z.eq_dec (map cid (map snd l)) z =
+  (count_occ Z.eq_dec (map cid (map snd (filter f l))) z +
+   count_occ Z.eq_dec (map cid (map snd (filter (fun e => negb (f e)) l))) z)%nat.
+Proof.
+  induction l as [|e l IH]; simpl; [reflexivity|].
+  destruct (f e); simpl; destruct (Z.eq_dec (cid (snd e)) z); lia.
+Qed.
+
 (* what an operation does to the identities of the calls: the completed ones leave [live],
    a new call enters it (or, refused, is completed at once) *)
 Lemma step_cids s o s' x : Inv s -> step s o = (s', x) ->
   exists fresh, (fresh = [] \/ fresh = [ncalls s]) /\ ncalls s' = ncalls s + Z.of_nat (length fresh) /\
                 Permutation (live s' ++ map kcid (ocomps x)) (fresh ++ live s).
 Proof.
-  intros I H. destruct o as [sync dl|r|now|]; simpl in H.
+  intros I H. destruct o as [sync dl|r|now| |r| |k]; cbn [step] in H.
   - destruct (probe fuel16 (counter s) (pending s)) as [seq|] eqn:P.
     + destruct (probe_some _ _ _ _ (i_counter _ I) P) as [_ Hn].
       unfold call_with in H. inversion H; subst; clear H. exists [ncalls s]. split; [right; reflexivity|].
-      split; [simpl; lia|]. unfold live. simpl. rewrite remove_absent by exact Hn. rewrite app_nil_r. reflexivity.
+      split; [simpl; lia|]. unfold live, cids. simpl. rewrite remove_absent by exact Hn. permz.
     + unfold call_refused in H. inversion H; subst; clear H. exists [ncalls s]. split; [right; reflexivity|].
-      split; [simpl; lia|]. unfold live. simpl. rewrite complete_cid. simpl.
-      symmetry. apply Permutation_cons_append.
+      split; [simpl; lia|]. unfold live, cids. simpl. rewrite complete_cid. simpl. permz.
   - destruct (lookup (rseq r) (pending s)) as [c|] eqn:L.
     + inversion H; subst; clear H. exists []. split; [left; reflexivity|]. split; [simpl; lia|].
       destruct (remove_split _ _ _ (i_nodup _ I) L) as [l1 [l2 [E1 E2]]].
-      unfold live. simpl. rewrite E2, E1. rewrite complete_cid. unfold cids. rewrite !map_app. simpl.
-      rewrite <- !app_assoc. apply Permutation_app_head.
-      rewrite (Permutation_app_comm _ [cid c]). simpl.
-      rewrite <- Permutation_middle. reflexivity.
+      unfold live, cids. simpl. rewrite E2, E1. rewrite complete_cid. permz.
     + inversion H; subst; clear H. exists []. split; [left; reflexivity|]. split; [simpl; lia|].
       simpl. rewrite app_nil_r. reflexivity.
   - inversion H; subst; clear H. exists []. split; [left; reflexivity|]. split; [simpl; lia|].
-    unfold live. simpl. rewrite app_nil_r. unfold cids. rewrite !map_app.
-    rewrite <- (filter_perm (overdue now) (pending s)) at 3. rewrite !map_app.
-    rewrite (Permutation_app_comm (map cid (map snd (filter (overdue now) (pending s))))).
-    rewrite <- !app_assoc. apply Permutation_app_head. apply Permutation_app_comm.
+    unfold live, cids. simpl.
+    apply (proj2 (Permutation_count_occ Z.eq_dec _ _)); intros z.
+    repeat first [rewrite count_occ_app | rewrite map_app | progress simpl].
+    rewrite (count_filter_split (overdue now) (pending s) z). lia.
   - inversion H; subst; clear H. exists []. split; [left; reflexivity|]. split; [simpl; lia|].
-    unfold live. simpl. rewrite app_nil_r. rewrite map_map.
-    apply Permutation_app_head. unfold cids. apply Permutation_refl' . apply map_ext. intros c. apply complete_cid.
+    unfold live, cids. cbn [pending expired inflight ocomps]. rewrite map_kcid_complete. permz.
+  - destruct (lookup (rseq r) (pending s)) as [c|] eqn:L.
+    + inversion H; subst; clear H. exists []. split; [left; reflexivity|]. split; [simpl; lia|].
+      destruct (remove_split _ _ _ (i_nodup _ I) L) as [l1 [l2 [E1 E2]]].
+      unfold live, cids. simpl. rewrite E2, E1. permz.
+    + inversion H; subst; clear H. exists []. split; [left; reflexivity|]. split; [simpl; lia|].
+      simpl. rewrite app_nil_r. reflexivity.
+  - inversion H; subst; clear H. exists []. split; [left; reflexivity|]. split; [simpl; lia|].
+    unfold live, cids. cbn [pending expired inflight ocomps]. rewrite !map_app, map_cid_pair. permz.
+  - destruct (nth_error (inflight s) k) as [[c r]|] eqn:N.
+    + inversion H; subst; clear H. exists []. split; [left; reflexivity|]. split; [simpl; lia|].
+      unfold live, cids. simpl. rewrite complete_cid.
+      rewrite (nth_error_split _ _ _ N) at 3. permz.
+    + inversion H; subst; clear H. exists []. split; [left; reflexivity|]. split; [simpl; lia|].
+      simpl. rewrite app_nil_r. reflexivity.
 Qed.
 
 Lemma live_sub_perm s s' x fresh : Permutation (live s' ++ map kcid (ocomps x)) (fresh ++ live s) ->
   forall y, In y (live s') -> In y (fresh ++ live s).
 Proof. intros P y Hy. apply (Permutation_in y P). apply in_or_app. left. exact Hy. Qed.
+
+Lemma NoDup_app_l {A} (a b : list A) : NoDup (a ++ b) -> NoDup a.
+Proof.
+  induction a as [|x a IH]; simpl; intros H; [constructor|].
+  inversion H; subst. constructor; [|apply IH; assumption].
+  intros Hin. apply H2. apply in_or_app. left. exact Hin.
+Qed.
 
 Lemma step_Inv s o s' x : Inv s -> step s o = (s', x) -> Inv s'.
 Proof.
@@ -248,14 +295,12 @@ Proof.
     - destruct Hf as [->| ->]; simpl in Hy; [tauto|]. destruct Hy as [<-|[]]. pose proof (i_ncalls _ I). simpl in Hn. lia.
     - pose proof (i_bound _ I _ Hy). lia. }
   assert (N' : NoDup (live s')).
-  { apply (Permutation_NoDup (Permutation_sym P)) in NL.
-    clear -NL. induction (live s') as [|a l IH]; simpl in *; [constructor|].
-    inversion NL; subst. constructor; [|apply IH; assumption]. intros Hin. apply H1. apply in_or_app. left. exact Hin. }
+  { apply (Permutation_NoDup (Permutation_sym P)) in NL. apply NoDup_app_l in NL. exact NL. }
   assert (B' : forall y, In y (live s') -> 0 <= y < ncalls s').
   { intros y Hy. apply BL. eapply live_sub_perm; eauto. }
   assert (C' : 0 <= ncalls s') by (pose proof (i_ncalls _ I); lia).
   clear P NL BL Hf Hn.
-  destruct o as [sync dl|r|now|]; simpl in H.
+  destruct o as [sync dl|r|now| |r| |k]; cbn [step] in H.
   - destruct (probe fuel16 (counter s) (pending s)) as [seq|] eqn:Pr.
     + destruct (probe_some _ _ _ _ (i_counter _ I) Pr) as [Hs Hni].
       unfold call_with in H. inversion H; subst; clear H. constructor; simpl; try assumption.
@@ -273,6 +318,14 @@ Proof.
     + intros k Hk. apply (i_keys _ I). eapply keys_filter_sub; eauto.
   - inversion H; subst; clear H. constructor; simpl; try assumption;
     [apply (i_nodup _ I) | apply (i_keys _ I) | apply (i_counter _ I)].
+  - destruct (lookup (rseq r) (pending s)) as [c|] eqn:L; inversion H; subst; clear H;
+    constructor; simpl; try assumption; try (apply (i_nodup _ I)); try (apply (i_keys _ I)); try (apply (i_counter _ I)).
+    + rewrite remove_keys. apply NoDup_filter. apply (i_nodup _ I).
+    + intros k Hk. rewrite remove_keys in Hk. apply filter_In in Hk. apply (i_keys _ I). tauto.
+  - inversion H; subst; clear H. constructor; simpl; try assumption;
+    [apply (i_nodup _ I) | apply (i_keys _ I) | apply (i_counter _ I)].
+  - destruct (nth_error (inflight s) k) as [[c r]|] eqn:N; inversion H; subst; clear H;
+    constructor; simpl; try assumption; try (apply (i_nodup _ I)); try (apply (i_keys _ I)); try (apply (i_counter _ I)).
 Qed.
 
 Lemma run_Inv ops : forall s s' xs, Inv s -> run s ops = (s', xs) -> Inv s'.
@@ -392,7 +445,8 @@ Proof.
   - apply (in_map (fun c0 => complete c0 (errpkt codes_RequestTimeout))). exact Hin.
   - apply count_cid_nodup; [|exact Hin | intros c'; apply complete_cid].
     pose proof (i_live _ I) as N. unfold live in N. clear -N.
-    induction (cids (map snd (pending s))) as [|a l IH]; simpl in N; [exact N|]. inversion N; subst. apply IH. assumption.
+    induction (cids (map snd (pending s))) as [|a l IH]; simpl in N; [apply NoDup_app_l in N; exact N|].
+    inversion N; subst. apply IH. assumption.
 Qed.
 
 Theorem timeout_complete_spec c :
@@ -455,3 +509,99 @@ Theorem seq_unique c0 ops : u16 c0 ->
   let s := fst (run (init c0) ops) in
   NoDup (keys (pending s)) /\ (forall k, In k (keys (pending s)) -> seqnum k).
 Proof. intros H s. pose proof (reach_Inv c0 ops H) as I. split; [apply (i_nodup _ I) | apply (i_keys _ I)]. Qed.
+
+(* ------------------------------------------------------------------ the two-phase operations *)
+
+Theorem strip_spec s r : Inv s ->
+  forall s' x, step s (OStrip r) = (s', x) ->
+  ocomps x = [] /\ expired s' = expired s /\
+  match lookup (rseq r) (pending s) with
+  | Some c => ores x = 0 /\ inflight s' = inflight s ++ [(c, r)] /\
+              lookup (rseq r) (pending s') = None /\
+              (forall k, k <> rseq r -> lookup k (pending s') = lookup k (pending s))
+  | None => ores x = 1 /\ s' = s
+  end.
+Proof.
+  intros I s' x H. cbn [step] in H. destruct (lookup (rseq r) (pending s)) as [c|] eqn:L;
+  inversion H; subst; clear H; simpl.
+  - split; [reflexivity|]. split; [reflexivity|]. split; [reflexivity|]. split; [reflexivity|].
+    split; [apply lookup_remove_same | intros k Hk; apply lookup_remove_other; exact Hk].
+  - split; [reflexivity|]. split; [reflexivity|]. split; reflexivity.
+Qed.
+
+Theorem strip_reap_spec s :
+  forall s' x, step s OStripReap = (s', x) ->
+  ocomps x = [] /\ expired s' = [] /\ pending s' = pending s /\ ores x = Z.of_nat (length (expired s)) /\
+  inflight s' = inflight s ++ map (fun c => (c, errpkt codes_RequestTimeout)) (expired s).
+Proof. intros s' x H. cbn [step] in H. inversion H; subst; clear H. simpl. repeat split. Qed.
+
+Theorem run_spec s k c r : nth_error (inflight s) k = Some (c, r) ->
+  forall s' x, step s (ORun k) = (s', x) ->
+  ocomps x = [complete c r] /\ pending s' = pending s /\ expired s' = expired s /\ counter s' = counter s /\
+  inflight s' = firstn k (inflight s) ++ skipn (S k) (inflight s).
+Proof. intros N s' x H. cbn [step] in H. rewrite N in H. inversion H; subst; clear H. simpl. repeat split. Qed.
+
+(* the atomic Dispatch is "strip, then run" with nothing in between *)
+Theorem dispatch_two_phase s r c : lookup (rseq r) (pending s) = Some c ->
+  forall s1 x1 s2 x2,
+  step s (OStrip r) = (s1, x1) -> step s1 (ORun (length (inflight s))) = (s2, x2) ->
+  step s (ODispatch r) = (s2, mkout 0 0 (ocomps x1 ++ ocomps x2)).
+Proof.
+  intros L s1 x1 s2 x2 H1 H2. cbn [step] in *. rewrite L in *. inversion H1; subst; clear H1.
+  cbn [inflight] in H2. rewrite nth_error_app2 in H2 by lia. rewrite Nat.sub_diag in H2. cbn [nth_error] in H2.
+  assert (F : firstn (length (inflight s)) (inflight s ++ [(c, r)]) = inflight s).
+  { rewrite firstn_app, firstn_all, Nat.sub_diag. simpl. apply app_nil_r. }
+  assert (K : skipn (S (length (inflight s))) (inflight s ++ [(c, r)]) = []).
+  { apply skipn_all2. rewrite app_length. simpl. lia. }
+  rewrite F, K, app_nil_r in H2. inversion H2; subst; clear H2. reflexivity.
+Qed.
+
+(* ------------------------------------------------------------------ exactly once: the accounting *)
+
+Definition ids (n : Z) : list Z := map Z.of_nat (seq 0 (Z.to_nat n)).
+
+Lemma ids_succ n : 0 <= n -> ids (n + 1) = ids n ++ [n].
+Proof.
+  intros H. unfold ids. replace (Z.to_nat (n + 1)) with (S (Z.to_nat n)) by lia.
+  rewrite seq_S, map_app. simpl. rewrite Z2Nat.id by exact H. reflexivity.
+Qed.
+
+Lemma ids_nodup n : NoDup (ids n).
+Proof. unfold ids. apply FinFun.Injective_map_NoDup; [intros a b E; lia | apply seq_NoDup]. Qed.
+
+Lemma run_account ops : forall s s' xs done, Inv s -> run s ops = (s', xs) ->
+  Permutation (live s ++ done) (ids (ncalls s)) ->
+  Permutation (live s' ++ map kcid (completions xs) ++ done) (ids (ncalls s')).
+Proof.
+  induction ops as [|o ops IH]; intros s s' xs done I H A; simpl in H.
+  - inversion H; subst. simpl. exact A.
+  - destruct (step s o) as [s1 x] eqn:E1. destruct (run s1 ops) as [s2 xs2] eqn:E2. inversion H; subst s' xs; clear H.
+    destruct (step_cids _ _ _ _ I E1) as [fresh [Hf [Hn P]]].
+    assert (A1 : Permutation (live s1 ++ (map kcid (ocomps x) ++ done)) (ids (ncalls s1))).
+    { rewrite app_assoc. rewrite P. rewrite <- app_assoc. rewrite A.
+      destruct Hf as [->| ->]; simpl in *.
+      - replace (ncalls s1) with (ncalls s) by lia. reflexivity.
+      - rewrite Hn. rewrite ids_succ by (apply (i_ncalls _ I)). apply Permutation_cons_append. }
+    pose proof (IH s1 s2 xs2 _ (step_Inv _ _ _ _ I E1) E2 A1) as R.
+    rewrite <- R. unfold completions. simpl. permz.
+Qed.
+
+(* every call ever made is, at any moment, either still to be completed (in the table, expired,
+   or stripped with its completion pending) or has been completed — exactly once *)
+Theorem exactly_once_accounting c0 ops : u16 c0 ->
+  Permutation (live (fst (run (init c0) ops)) ++ map kcid (completions (snd (run (init c0) ops))))
+              (ids (ncalls (fst (run (init c0) ops)))).
+Proof.
+  intros H. destruct (run (init c0) ops) as [s xs] eqn:E. simpl.
+  pose proof (run_account ops (init c0) s xs [] (Inv_init c0 H) E) as R.
+  rewrite !app_nil_r in R. apply R. unfold live, ids. simpl. constructor.
+Qed.
+
+Theorem all_completed_once c0 ops : u16 c0 ->
+  let s := fst (run (init c0) ops) in
+  pending s = [] -> expired s = [] -> inflight s = [] ->
+  Permutation (map kcid (completions (snd (run (init c0) ops)))) (ids (ncalls s)).
+Proof.
+  intros H s Hp He Hi. pose proof (exactly_once_accounting c0 ops H) as R. fold s in R.
+  unfold live in R. rewrite Hp, He, Hi in R. simpl in R. exact R.
+Qed.
